@@ -1,6 +1,7 @@
 import PbVerif.Driver.Util
 import PbVerif.Model.MsgDet
 import PbVerif.Model.MsgOps
+import PbVerif.Lemmas.MsgWF
 /-
 `pbmodel_msg`: line protocol for the message model.
 
@@ -114,6 +115,9 @@ def msgStep (S : Schema) : List String → Schema × String
     | _, _, _, _, _, _, _ => (S, "bad-op")
   | "enc" :: mi :: ts => match mi.toNat?, pMsg ts with
     | some mi, some (m, []) => (S, if badUtf8Msg S mi m then "err utf8" else hexOfBytes (encMsg S mi m))
+    | _, _ => (S, "bad-op")
+  | "wf" :: mi :: ts => match mi.toNat?, pMsg ts with
+    | some mi, some (m, []) => (S, if cwfMsg S mi 10000 m then "1" else "0")
     | _, _ => (S, "bad-op")
   | "encraw" :: mi :: ts => match mi.toNat?, pMsg ts with
     | some mi, some (m, []) => (S, hexOfBytes (encMsg S mi m))
